@@ -343,9 +343,9 @@ void yield_point(int kind) {
     if (W.cur < 0) return;
     Task *t = W.tasks[W.cur];
     ++W.candidates; ++t->my_candidates;
-    // no progress: spinning without virtual time advancing, or still running after 12 simulated hours, or an absurd number of steps
+    // no progress: spinning without virtual time advancing, or still running after 1 simulated hour, or an absurd number of steps
     if (W.now != W.last_now) { W.last_now = W.now; W.cand_at_last_advance = W.candidates; }
-    if (W.candidates - W.cand_at_last_advance > 2000000 || W.now - W.epoch > 12LL * 3600 * 1000000000LL || W.candidates > 60000000) abandon_run(RUN_LIVELOCK);
+    if (W.candidates - W.cand_at_last_advance > 2000000 || W.now - W.epoch > 3600LL * 1000000000LL || W.candidates > 60000000) abandon_run(RUN_LIVELOCK);
     if (!W.faults.stalls.empty() || !W.faults.jumps.empty()) apply_candidate_faults(t);
     wake_sleepers();
     std::vector<int> list;
